@@ -2,7 +2,7 @@
 failing input. They read the implementation's own dumps of the whole store."""
 from proto import lines_equal
 
-INPLACE = ("setitem", "setvalues", "probe_write", "probe_dims", "ndwrite")
+INPLACE = ("setitem", "setvalues", "probe_write", "probe_dims", "ndwrite", "absi", "signi")
 INDEPENDENT_RESULT = ("copy", "add", "sub", "mul", "div", "min", "max", "pow", "neg", "abs", "absm", "sign",
                       "castto", "getitem", "full", "radd", "rsub", "rmul", "rdiv", "shares", "cumsum", "stack")
 
